@@ -960,6 +960,13 @@ def regenerate():
         changed += r['rewritten']
     except Exception as e:
         S.status['effects.translation'] = 'translator failed (%s: %s); previous files kept' % (type(e).__name__, e)
+    try:                         # the call-routing table (glue: which value reaches which parameter)
+        import routing
+        r = routing.regenerate()
+        S.status['routing'] = 'extracted %d call routes; arguments outside the canonical grammar (wildcards): %s' % (r['routes'], ', '.join(sorted(set(r['opaque']))) or 'none')
+        if r['rewritten']: changed.append('SlotsRouting.lean')
+    except Exception as e:
+        S.status['routing'] = 'extractor failed (%s: %s); previous file kept' % (type(e).__name__, e)
     S.status['_files_rewritten'] = changed
     return S.status
 
